@@ -156,6 +156,9 @@ ABORTING = ["Feature: f\n  Scenario: s\n    Given x\n      | a | b |\n      | c 
 CLEAN = ["Feature: after\n  Scenario: clean\n    Given z\n", "Scenario: headless\n  Given z\n", ""]
 
 
+_ABORT_PROBED = False
+
+
 def abort_probe(res: "Result"):
     """Process-wide state after ABORTED parses (implementation-only history oracle, run by every parse-based check):
     parses that abort while the look-ahead queue still holds lines — a builder error raised by the tag line that closes a
@@ -184,7 +187,9 @@ def parse_stream(docs, project, stream="parse", modes=(False, True), dialects=("
                  nontrivial=lambda i: True, shared=True) -> Result:
     """impl.parse vs model parse under `project(outcome) -> comparable`."""
     res = Result()
-    if shared:
+    global _ABORT_PROBED
+    if shared and not _ABORT_PROBED:      # once per check run
+        _ABORT_PROBED = True
         abort_probe(res)
     hist = {}
     cases = []
